@@ -33,8 +33,13 @@ def declare(S: Spec):
                   ("distinct", "nodup(ops)"),
                   ("others-kept", "all(state(o) == old(state(o)) for o in every('Operator') if o not in ops)"),
                   ("fields", "self.ops is ops and self.cpu == cpu and self.ram == ram and self.priority == priority and self.pool_id == pool_id"),
-                  ("I1", "GI1()")],
-         raises={"AssertionError": ["GI1()"]},
+                  ("I1", "GI1()"),
+                  ("failed-counts-kept", "implies(all(old(state(op)) == OperatorState.PENDING for op in ops),"
+                                         " all(st.state_counts[OperatorState.FAILED] == old(st.state_counts[OperatorState.FAILED])"
+                                         " for st in every('PipelineRuntimeStatus')))")],
+         raises={"AssertionError": ["GI1()",
+                                    "not (len(ops) > 0 and cpu > 0 and ram > 0 and nodup(ops)"
+                                    " and all(old(state(op)) in ASSIGNABLE_STATES for op in ops))"]},
          modifies=["(values(op.pipeline._runtime_status.operator_states) for op in ops)",
                    "(values(op.pipeline._runtime_status.state_counts) for op in ops)"],
          loops={0: dict(idx="k", header="for op in ops",
@@ -42,7 +47,10 @@ def declare(S: Spec):
                              "all(old(state(ops[j])) in ASSIGNABLE_STATES for j in range(0, k))",
                              "nodup(take(ops, k))",
                              "all(state(o) == old(state(o)) for o in every('Operator') if o not in take(ops, k))",
-                             "GI1()", "k <= len(ops)"])})
+                             "GI1()", "k <= len(ops)",
+                             "implies(all(old(state(ops[j])) == OperatorState.PENDING for j in range(0, k)),"
+                             " all(st.state_counts[OperatorState.FAILED] == old(st.state_counts[OperatorState.FAILED])"
+                             " for st in every('PipelineRuntimeStatus')))"])})
 
     S.fn(f"{MC}:Container.set_current_memory_usage", owners=["C04"],
          params={"new_memory": REAL},
